@@ -19,11 +19,24 @@
 (*   Parse(d with separators as newlines) = the same t,                    *)
 (*   Parse(Canon(t)) = t   -- the canonical text of a tree is a derivation *)
 (*                            of the same tree.                            *)
-(* and prints one JSON line {toks, tree, canon} per derivation (Emit); the *)
-(* harness renders `toks` with surface variation and runs the real parser  *)
-(* and printer of yash-syntax against it.  In profile "soup" the state is  *)
-(* an arbitrary token sequence over SoupAlphabet and the line carries the  *)
-(* verdict of Parse.                                                       *)
+(* and prints one JSON line {toks, exp, tree, canon} per derivation         *)
+(* (GenInv); the harness renders `toks` with surface variation and runs    *)
+(* the real parser and printer of yash-syntax against it.  In profile      *)
+(* "soup" the state is an arbitrary token sequence over SoupAlphabet and   *)
+(* the line carries the verdict of Parse (SoupInv).                        *)
+(*                                                                         *)
+(* Profiles (one MC_Syntax_<profile>.cfg each; the bounds MaxTok/MaxUnits  *)
+(* can be overridden by the environment variables MAXTOK / MAXUNITS):      *)
+(*   cmd     every production, one word per syntactic position             *)
+(*   lex     shallow programs over rich alphabets: all redirection         *)
+(*           operators, IO numbers, here-document variants, reserved words *)
+(*           as ordinary words, assignments, arrays, declaration utilities *)
+(*   struct  nesting of compound commands, lists, pipelines, and-or lists  *)
+(*   ctl     one command per list: deep nesting (if/elif/else, case, ...)  *)
+(*   hd      here-documents against every newline position of the grammar  *)
+(*   word    one word of up to MaxUnits units after `echo`                 *)
+(*   wordall the same in every syntactic position of a word                *)
+(*   soup    all token sequences up to MaxTok over SoupFull/Small/Tiny     *)
 (*                                                                         *)
 (* JSON shape of trees (the Rust side is harness/c06/src/tree.rs):         *)
 (*  List  = <<Item>>            Item = [ao, bg]                            *)
